@@ -5,8 +5,8 @@
 //! C17  the tokens that start flagged constructs are the same on every token-preserving re-layout of a
 //!      file, the reported lines are exactly the lines of those tokens, and text inside comments or string
 //!      literals never produces a finding of its own.
-//! C15  the lines reported for (file content, pattern) do not depend on call history, repetition,
-//!      `file_number`, a fresh process, or concurrent callers.
+//! C15  the lines reported for (file content, pattern) do not depend on call history (other patterns on the same
+//!      file, other files analysed before it), repetition, `file_number`, a fresh process, or concurrent callers.
 //!
 //! The tokenizer is solang's own lexer (`solang_parser::lexer::Lexer`, the one `parse` uses), so "token" means
 //! exactly what the code under test sees; every re-layout is re-lexed and must give the same token sequence
@@ -1767,6 +1767,409 @@ fn same_buffer_pair(dets: &[Det], a: &str, b: &str, refs: &[Vec<Lines>; 2], eval
     bad
 }
 
+// ---- other-file history: a DIFFERENT file is analysed first, then the file under test ----
+
+/// headers of the version-sensitive pool (name, text); the two without `pragma solidity` come first so that their
+/// in-process references are computed before any version was seen by this process
+const OFH_HEADERS: [(&str, &str); 6] = [
+    ("no pragma", ""),
+    ("only pragma experimental ABIEncoderV2", "pragma experimental ABIEncoderV2;\n"),
+    ("pragma solidity 0.7.6", "pragma solidity 0.7.6;\n"),
+    ("pragma solidity 0.8.3", "pragma solidity 0.8.3;\n"),
+    ("pragma solidity 0.8.4", "pragma solidity 0.8.4;\n"),
+    ("pragma solidity ^0.8.17", "pragma solidity ^0.8.17;\n"),
+];
+
+/// version-sensitive bodies: SafeMath calls (safe_math_pre_080 / safe_math_post_080) and `require` with a 31-byte and
+/// a 33-byte message (string_errors / short_revert_string); the verdict of the four detectors depends on the version
+fn ofh_bodies() -> Vec<(&'static str, String)> {
+    let s31 = "reason of thirty-one bytes 4567";
+    let s33 = "reason of thirty-three bytes 4567";
+    assert!(s31.len() == 31 && s33.len() == 33);
+    vec![
+        (
+            "safemath-require",
+            format!(
+                "library SafeMath {{\n    function add(uint a, uint b) internal pure returns (uint) {{\n        return a + b;\n    }}\n    function sub(uint a, uint b) internal pure returns (uint) {{\n        return a - b;\n    }}\n}}\n\ncontract V0 {{\n    using SafeMath for uint;\n    uint total;\n\n    function f0(uint a, uint b) public returns (uint) {{\n        require(a > 0, \"{}\");\n        require(b > 0, \"{}\");\n        total = a.add(b);\n        return total.sub(1);\n    }}\n}}\n",
+                s31, s33
+            ),
+        ),
+        (
+            // the same kinds of constructs on other lines, library after the contract
+            "safemath-require-2",
+            format!(
+                "\n\ncontract W0 {{\n    using SafeMath for uint256;\n    uint acc;\n    function g1(uint p, uint q) external returns (uint) {{\n        require(p != q,\n            \"{}\");\n        acc = p.mul(q).div(2);\n\n        require(acc > 1, \"{}\");\n        return acc;\n    }}\n}}\nlibrary SafeMath {{\n    function mul(uint a, uint b) internal pure returns (uint) {{ return a * b; }}\n    function div(uint a, uint b) internal pure returns (uint) {{ return a / b; }}\n}}\n",
+                s33, s31
+            ),
+        ),
+        (
+            // calls named like SafeMath's but NO `using SafeMath`, no message strings: nothing to report at any version
+            // unless the facts `uses SafeMath` / `has a long message` are left behind by another file
+            "add-without-using-safemath",
+            "library Other {\n    function add(uint a, uint b) internal pure returns (uint) {\n        return a + b;\n    }\n}\n\ncontract U0 {\n    using Other for uint;\n    uint total;\n\n    function f0(uint a, uint b) public returns (uint) {\n        require(a > 0);\n        total = a.add(b);\n        return total;\n    }\n}\n".to_string(),
+        ),
+    ]
+}
+
+struct OfhProg {
+    tag: String,
+    /// what names the compiler version in this file (the fact another file could leave behind)
+    header: String,
+    src: String,
+}
+
+fn ofh_header_of(src: &str) -> String {
+    match src.find("pragma solidity") {
+        Some(i) => format!("pragma solidity {}", src[i + 15..].split(';').next().unwrap_or("").trim()),
+        None => {
+            if src.contains("pragma ") {
+                "only another pragma".to_string()
+            } else {
+                "no pragma".to_string()
+            }
+        }
+    }
+}
+
+/// the pool: version-sensitive programs (body x header) plus a few programs of the corpus
+fn ofh_pool(thorough: bool, progs: &[Prog], seed: u64) -> (Vec<OfhProg>, Vec<String>) {
+    let bodies = ofh_bodies();
+    let mut pool = vec![];
+    for (hi, (hname, htext)) in OFH_HEADERS.iter().enumerate() {
+        for (bi, (bname, btext)) in bodies.iter().enumerate() {
+            // quick: body 0 with every header, bodies 1 and 2 with 0.8.4
+            // thorough: bodies 0 and 1 with every header, body 2 with 0.7.6, 0.8.4 and ^0.8.17
+            let take = match bi {
+                0 => true,
+                1 => thorough || hi == 4,
+                _ => hi == 4 || (thorough && (hi == 2 || hi == 5)),
+            };
+            if take {
+                pool.push(OfhProg { tag: format!("{} + {}", hname, bname), header: hname.to_string(), src: format!("{}{}", htext, btext) });
+            }
+        }
+    }
+    // corpus programs: fixed ones (a `require` with a message, a state write, the 0.4 file that uses SafeMath) and seeded ones
+    let fixed: &[&str] = if thorough { &["require@stmt-expr", "sstore@stmt-expr", "sink-old", "transfer@stmt-expr", "arrupd@stmt-expr"] } else { &["require@stmt-expr", "sink-old"] };
+    let mut chosen: Vec<&Prog> = vec![];
+    for t in fixed {
+        if let Some(p) = progs.iter().find(|p| p.tag == *t) {
+            chosen.push(p);
+        }
+    }
+    let mut rng = Rng::new(seed ^ 0x0F11_E5);
+    let extra = if thorough { 3 } else { 0 };
+    let mut tries = 0;
+    while chosen.len() < fixed.len() + extra && tries < 200 && !progs.is_empty() {
+        tries += 1;
+        let p = rng.pick(progs);
+        if p.src.len() < 4000 && !chosen.iter().any(|c| c.tag == p.tag) {
+            chosen.push(p);
+        }
+    }
+    for p in chosen {
+        pool.push(OfhProg { tag: format!("corpus {}", p.tag), header: ofh_header_of(&p.src), src: p.src.clone() });
+    }
+    // only programs that parse take part
+    let mut parse_fail = vec![];
+    pool.retain(|p| {
+        let ok = solang_parser::parse(&p.src, 0).is_ok();
+        if !ok {
+            parse_fail.push(format!("other-file-history: {}", p.tag));
+        }
+        ok
+    });
+    (pool, parse_fail)
+}
+
+/// every ordered pair (index of A, index of B) of different texts
+fn ofh_pairs(pool: &[OfhProg]) -> Vec<(usize, usize)> {
+    let mut v = vec![];
+    for ia in 0..pool.len() {
+        for ib in 0..pool.len() {
+            if ia != ib && pool[ia].src != pool[ib].src {
+                v.push((ia, ib));
+            }
+        }
+    }
+    v
+}
+
+const OFH_CONTEXTS: usize = 3;
+const OFH_CONTEXT_NAMES: [&str; OFH_CONTEXTS] = ["directly after A (order A,B)", "second time in the order A,B,A,B", "after A with file number 1, B with file number 2"];
+
+/// The contexts of one case (A, B, pattern), all in the calling thread: A with ALL patterns and immediately afterwards
+/// B with pattern `di`; the same once more (order A,B,A,B); then A with file number 1 and B with file number 2 (all
+/// three `analyze_for_*` entry points are used on A every time). Returns B's lines in each context.
+fn ofh_run(dets: &[Det], a: &str, b: &str, di: usize) -> Vec<Lines> {
+    let all = |file_no: usize| {
+        for d in dets {
+            let _ = analyze(d, a, file_no);
+        }
+    };
+    let mut out = vec![];
+    all(0);
+    out.push(analyze(&dets[di], b, 0));
+    all(0);
+    out.push(analyze(&dets[di], b, 0));
+    all(1);
+    out.push(analyze(&dets[di], b, 2));
+    out
+}
+
+/// one ordered pair: the cases (A, B, pattern) for every pattern, one after the other; result[pattern][context]
+fn ofh_pair(dets: &[Det], a: &str, b: &str) -> Vec<Vec<Lines>> {
+    (0..dets.len()).map(|di| ofh_run(dets, a, b, di)).collect()
+}
+
+/// `c15-ofh-worker <text A> <text B>`: a single-threaded process that analyses nothing but this ordered pair
+fn ofh_worker(rest: &[String]) -> i32 {
+    silence();
+    if rest.len() < 2 {
+        return 2;
+    }
+    let a = crate::arg_or_file(&rest[0]);
+    let b = crate::arg_or_file(&rest[1]);
+    let dets = detectors();
+    let mut txt = String::new();
+    for (di, per_ctx) in ofh_pair(&dets, &a, &b).into_iter().enumerate() {
+        for (ci, g) in per_ctx.into_iter().enumerate() {
+            txt.push_str(&format!("{} {} {}\n", di, ci, encode_lines(&g)));
+        }
+    }
+    txt.push_str("done\n");
+    print!("{}", txt);
+    0
+}
+
+/// one ordered pair analysed by a worker process; None if the process cannot be started or its output is not complete
+fn ofh_pair_in_worker(a: &str, b: &str, nd: usize) -> Option<Vec<Vec<Lines>>> {
+    if a.len() + b.len() > 60_000 || a.contains('\0') || b.contains('\0') {
+        return None;
+    }
+    let exe = std::env::current_exe().ok()?;
+    let out = std::process::Command::new(exe).arg("c15-ofh-worker").arg(format!("@src:{}", a)).arg(format!("@src:{}", b)).output().ok()?;
+    if !out.status.success() {
+        return None;
+    }
+    let txt = String::from_utf8_lossy(&out.stdout).to_string();
+    let mut res: Vec<Vec<Lines>> = (0..nd).map(|_| vec![]).collect();
+    let mut done = false;
+    for line in txt.lines() {
+        if line == "done" {
+            done = true;
+            continue;
+        }
+        let mut it = line.splitn(3, ' ');
+        let di = it.next()?.parse::<usize>().ok()?;
+        let ci = it.next()?.parse::<usize>().ok()?;
+        let g = decode_lines(it.next()?)?;
+        if di >= nd || ci != res[di].len() {
+            return None;
+        }
+        res[di].push(g);
+    }
+    if done && res.iter().all(|v| v.len() == OFH_CONTEXTS) {
+        Some(res)
+    } else {
+        None
+    }
+}
+
+fn ofh_replay_argv(a: &str, b: &str, det: &str) -> Vec<String> {
+    vec!["c15-case".into(), "other-file-history".into(), format!("@src:{}", a), format!("@src:{}", b), det.to_string()]
+}
+
+/// runs the replay of a case in a process of its own: Some(true) = it reports the violation, Some(false) = it holds
+fn ofh_replay_reproduces(argv: &[String]) -> Option<bool> {
+    let exe = std::env::current_exe().ok()?;
+    let out = std::process::Command::new(exe).args(argv).output().ok()?;
+    match out.status.code() {
+        Some(1) => Some(true),
+        Some(0) => Some(false),
+        _ => None,
+    }
+}
+
+const OFH_GROUP: &str = "c15:other-file-history";
+/// at most this many mismatches are re-run through their replay command while the check runs (only a tree with a
+/// defect has any)
+const OFH_VERIFY_CAP: usize = 60;
+
+#[derive(Default)]
+struct OfhOut {
+    mis: Vec<Mis>,
+    evals: u64,
+    nontrivial: Vec<String>,
+    pool: usize,
+    pairs: u64,
+    cmp_pairs: u64,
+    cmp_refs: u64,
+    fresh_refs: u64,
+    inproc_refs: u64,
+    skipped_panics: u64,
+    parse_fail: Vec<String>,
+    sample: Option<J>,
+    pairs_in_process: usize,
+}
+
+/// MUST run before anything else is analysed by this process: the in-process references are first evaluations.
+/// Reference of (B, pattern) = B analysed by a fresh process that does nothing else; where no process can be started,
+/// the first in-process evaluation (programs without `pragma solidity` first).
+/// Every ordered pair is analysed by a single-threaded process of its own, so a difference can only come from the
+/// two files of the pair; pairs whose process cannot be started are run in this process afterwards.
+fn ofh_stage(dets: &[Det], pool: Vec<OfhProg>, parse_fail: Vec<String>, order_base: usize) -> OfhOut {
+    let mut o = OfhOut::default();
+    o.parse_fail = parse_fail;
+    o.pool = pool.len();
+    let nd = dets.len();
+    let pairs = ofh_pairs(&pool);
+    o.pairs = pairs.len() as u64;
+    // fresh-process references and the pair processes (nothing of it happens in this process)
+    let jobs: Vec<(usize, usize)> = (0..pool.len()).flat_map(|k| (0..nd).map(move |di| (k, di))).collect();
+    let fresh: Vec<Option<Lines>> = par_map(&jobs, |_, (k, di)| fresh_process(&pool[*k].src, dets[*di].name));
+    let from_workers: Vec<Option<Vec<Vec<Lines>>>> = par_map(&pairs, |_, (ia, ib)| ofh_pair_in_worker(&pool[*ia].src, &pool[*ib].src, nd));
+    let mut verified = 0usize;
+    // the in-process first evaluations, then the references
+    let mut refs: Vec<Vec<Lines>> = vec![];
+    for (k, p) in pool.iter().enumerate() {
+        let inproc: Vec<Lines> = dets.iter().map(|d| analyze(d, &p.src, 0)).collect();
+        let mut row = vec![];
+        for (di, first) in inproc.into_iter().enumerate() {
+            match &fresh[k * nd + di] {
+                Some(f) => {
+                    o.fresh_refs += 1;
+                    if f.is_ok() {
+                        // the first evaluation in this process comes after pool[..k] (all patterns each) only
+                        o.evals += 1;
+                        o.cmp_refs += 1;
+                        if !same(&first, f) {
+                            // which earlier program is enough on its own? (the last one first)
+                            let mut culprit: Option<usize> = None;
+                            for j in (0..k).rev() {
+                                if verified >= OFH_VERIFY_CAP {
+                                    break;
+                                }
+                                verified += 1;
+                                if ofh_replay_reproduces(&ofh_replay_argv(&pool[j].src, &p.src, dets[di].name)) == Some(true) {
+                                    culprit = Some(j);
+                                    break;
+                                }
+                            }
+                            let prev = &pool[culprit.unwrap_or(k.saturating_sub(1))];
+                            o.mis.push(Mis {
+                                group: OFH_GROUP.to_string(),
+                                suffix: String::new(),
+                                det: dets[di].name,
+                                order: order_base + 1_000_000 + k,
+                                prog: p.tag.clone(),
+                                what: format!(
+                                    "{} on B = [{}] (header: {}): the first evaluation in this process, made after {} other pool program(s) had been analysed with all patterns, differs from a fresh process that analyses only B; {} A = [{}] (header: {})",
+                                    dets[di].name,
+                                    p.tag,
+                                    p.header,
+                                    k,
+                                    if culprit.is_some() { "the replay reproduces it with" } else { "NOT reproduced with a single earlier program by the replay; the last one was" },
+                                    prev.tag,
+                                    prev.header
+                                ),
+                                replay: ofh_replay_argv(&prev.src, &p.src, dets[di].name),
+                                expected: fmt_lines(f),
+                                actual: fmt_lines(&first),
+                            });
+                        }
+                    }
+                    row.push(f.clone());
+                }
+                None => {
+                    o.inproc_refs += 1;
+                    row.push(first);
+                }
+            }
+        }
+        refs.push(row);
+    }
+    // ordered pairs
+    for (k, ((ia, ib), res)) in pairs.iter().zip(from_workers.into_iter()).enumerate() {
+        let (a, b) = (&pool[*ia], &pool[*ib]);
+        let (res, own_process) = match res {
+            Some(v) => (v, true),
+            None => {
+                o.pairs_in_process += 1;
+                (ofh_pair(dets, &a.src, &b.src), false)
+            }
+        };
+        for (di, per_ctx) in res.into_iter().enumerate() {
+            let want = &refs[*ib][di];
+            let wb = match want {
+                Ok(w) => w,
+                Err(_) => {
+                    o.skipped_panics += 1;
+                    continue;
+                }
+            };
+            let on_a = matches!(&refs[*ia][di], Ok(x) if !x.is_empty());
+            if a.header != b.header && (on_a || !wb.is_empty()) {
+                o.nontrivial.push(format!("other-file|{}|{}|{}", a.tag, b.tag, dets[di].name));
+                if o.sample.is_none() && !wb.is_empty() && a.header.starts_with("pragma solidity") && b.header == "no pragma" {
+                    o.sample = Some(J::obj(vec![
+                        ("stage", J::s("other-file history")),
+                        ("A", J::s(a.tag.clone())),
+                        ("B", J::s(b.tag.clone())),
+                        ("detector", J::s(dets[di].name)),
+                        ("lines_of_B", J::s(fmt_lines(want))),
+                    ]));
+                }
+            }
+            let mut reported = false;
+            for (ci, g) in per_ctx.into_iter().enumerate() {
+                o.evals += 1;
+                o.cmp_pairs += 1;
+                if same(&g, want) || reported {
+                    continue;
+                }
+                reported = true;
+                // the replay runs this one case in a fresh process; when it does not show the difference, the difference
+                // needs the earlier cases of the pair as well (other patterns on the same two files): replay the sequence
+                let mut replay = ofh_replay_argv(&a.src, &b.src, dets[di].name);
+                let mut note = "";
+                if verified < OFH_VERIFY_CAP {
+                    verified += 1;
+                    if ofh_replay_reproduces(&replay) == Some(false) {
+                        replay.push("pair-sequence".into());
+                        note = if own_process {
+                            "; seen only after the cases of the earlier patterns had been run on the same two files in the same process (replay with `pair-sequence`)"
+                        } else {
+                            "; NOT seen by the single-case replay: no worker process could be started for this pair, so other pool programs had been analysed in this process before"
+                        };
+                    }
+                }
+                o.mis.push(Mis {
+                    group: OFH_GROUP.to_string(),
+                    suffix: String::new(),
+                    det: dets[di].name,
+                    order: order_base + k,
+                    prog: format!("[{}] then [{}]", a.tag, b.tag),
+                    what: format!(
+                        "{} on B = [{}] (header: {}) reports other lines when A = [{}] (header: {}) was analysed with all patterns first in the same thread ({}) than when B is analysed on its own{}",
+                        dets[di].name,
+                        b.tag,
+                        b.header,
+                        a.tag,
+                        a.header,
+                        OFH_CONTEXT_NAMES.get(ci).copied().unwrap_or("?"),
+                        note
+                    ),
+                    replay,
+                    expected: fmt_lines(want),
+                    actual: fmt_lines(&g),
+                });
+            }
+        }
+    }
+    o
+}
+
 pub fn run_c15(tier: &str, seed: u64) -> CheckResult {
     silence();
     let thorough = tier == "thorough";
@@ -1775,6 +2178,13 @@ pub fn run_c15(tier: &str, seed: u64) -> CheckResult {
     let nd = dets.len();
     let mut rng = Rng::new(seed);
     let progs = corpus(if thorough { 24 } else { 6 }, false, &mut rng);
+    // (vi) other-file history: FIRST, while this process has analysed nothing yet
+    let ofh_t0 = std::time::Instant::now();
+    let (ofh_programs, ofh_parse_fail) = ofh_pool(thorough, &progs, seed);
+    let ofh = ofh_stage(&dets, ofh_programs, ofh_parse_fail, progs.len() + 100);
+    if std::env::var("VXN_TIMING").is_ok() {
+        eprintln!("c15 other-file history: {} ms", ofh_t0.elapsed().as_millis());
+    }
     let rounds: u64 = if thorough { 2 } else { 1 };
     let fresh_every = if thorough { 4 } else { 8 };
     let mut skipped_panics = 0u64;
@@ -1784,6 +2194,14 @@ pub fn run_c15(tier: &str, seed: u64) -> CheckResult {
     let mut baselines: Vec<Option<Vec<Lines>>> = vec![];
     let mut prev_src = String::new();
     let mut mis: Vec<Mis> = vec![];
+    // results of the other-file-history stage (it ran first, see above)
+    r.evaluations += ofh.evals;
+    for n in &ofh.nontrivial {
+        r.nontrivial.insert(n.clone());
+    }
+    skipped_panics += ofh.skipped_panics;
+    parse_fail.extend(ofh.parse_fail.iter().cloned());
+    mis.extend(ofh.mis);
 
     for (pi, p) in progs.iter().enumerate() {
         if solang_parser::parse(&p.src, 0).is_err() {
@@ -2047,6 +2465,9 @@ pub fn run_c15(tier: &str, seed: u64) -> CheckResult {
             }
         }
     }
+    if let Some(j) = ofh.sample.clone() {
+        r.sample(j);
+    }
     collapse(&mut r, mis);
     r.rule = format!(
         "reference = first evaluation of (file content, pattern) in this process through analyze_for_*; a case is one comparison of another evaluation of the same (content, pattern) with the reference: \
@@ -2076,21 +2497,94 @@ non-trivial iff the reference reports at least one line. THREAD INTERLEAVINGS AR
         sb_cmp,
         sb_pairs
     );
+    r.rule.push_str(&format!(
+        " OTHER-FILE HISTORY (runs first, before this process has analysed anything): a pool of {} programs = version-sensitive bodies (library SafeMath + `using SafeMath for uint` + .add/.sub/.mul/.div calls, require with a 31-byte and a 33-byte message; and one body that calls .add WITHOUT using SafeMath and has no message) under the headers {{no pragma, only `pragma experimental ABIEncoderV2`, pragma solidity 0.7.6 / 0.8.3 / 0.8.4 / ^0.8.17}} plus a few corpus programs (pragma 0.8.10, ^0.4.24); reference of (B, pattern) = B analysed by a fresh process that does nothing else (fallback when no process can be started: the first evaluation in this process, pragma-less programs first); for every ordered pair (A, B), A != B, and every pattern: A is analysed with ALL 30 patterns (all three analyze_for_* entry points) and immediately afterwards, in the same thread, B with the pattern under test -- in the order A,B, again as A,B,A,B, and once more with file number 1 for A and 2 for B; each of the three results on B is one comparison with the reference; every ordered pair is analysed by a single-threaded process of its own (this binary; it analyses nothing but A and B: the 30 cases of the pair one after the other), so a difference can only come from the two files of the pair; a pair whose process cannot be started is run in this process afterwards; a difference is re-run through its replay command before it is reported; additionally the first in-process evaluation of every pool program (made after the earlier pool programs) is compared with its fresh-process reference. a pair case (A, B, pattern) is non-trivial iff A and B have different headers and the pattern reports at least one line on A or on B.",
+        ofh.pool
+    ));
+    r.bound.push_str(&format!(
+        "; other-file history: pool of {} programs, {} ordered pairs x 30 patterns x 3 contexts = {} comparisons, {} first-evaluation-vs-fresh-process comparisons, references: {} from fresh processes, {} in-process",
+        ofh.pool, ofh.pairs, ofh.cmp_pairs, ofh.cmp_refs, ofh.fresh_refs, ofh.inproc_refs
+    ));
+    r.extra.push(("other_file_history_pairs".into(), J::Num(ofh.pairs as i64)));
+    r.extra.push(("other_file_history_inprocess_references".into(), J::Num(ofh.inproc_refs as i64)));
+    r.extra.push(("other_file_history_pairs_without_own_process".into(), J::Num(ofh.pairs_in_process as i64)));
     r.extra.push(("same_buffer_moved".into(), J::Num(sb_moved as i64)));
     r.extra.push(("skipped_panics".into(), J::Num(skipped_panics as i64)));
     r.extra.push(("fresh_process_unavailable".into(), J::Num(fresh_unavailable as i64)));
     r.extra.push(("parse_failures".into(), J::arr_s(parse_fail)));
     r.assumptions.push("thread interleavings are sampled (8, 24 and 32 OS threads, barrier start), not explored systematically; a data race that needs a rare schedule can be missed".into());
-    r.assumptions.push("independence from sibling files, directories and directory position is exercised only through the file_number argument and through interleaved calls on other contents here; analyze_dir itself is C03's contract".into());
+    r.assumptions.push("independence from sibling files, directories and directory position is exercised only through the file_number argument, through interleaved calls on other contents and through the other-file-history pairs (another file analysed first) here; analyze_dir itself is C03's contract".into());
+    r.assumptions.push("other-file history: the facts another file can leave behind are sampled by a fixed pool (compiler version / pragma kind, use of SafeMath, long require messages, names of the corpus scaffold), all pairs of it, one thread; state that needs three or more different files, or another kind of fact, can be missed".into());
     r.assumptions.push("(program, pattern) pairs whose reference evaluation panics are skipped and counted in skipped_panics (C04); they still run as part of the history of the other patterns".into());
     r
+}
+
+/// `c15-case other-file-history <text A> <text B> <detector> [pair-sequence]`: the reference is B analysed by a fresh
+/// process that does nothing else (if none can be started: B first in this process); then this process, which has
+/// analysed nothing yet, runs A with all patterns followed by B with the detector, in the contexts of `ofh_run`
+/// (with `pair-sequence`: after the same cases for the patterns before this one, as the check's pair process does).
+/// Exit 1 iff B's lines differ from the reference.
+fn c15_replay_other_file(rest: &[String]) -> i32 {
+    if rest.len() < 4 {
+        eprintln!("usage: c15-case other-file-history <text A> <text B> <detector> [pair-sequence]");
+        return 2;
+    }
+    let a = crate::arg_or_file(&rest[1]);
+    let b = crate::arg_or_file(&rest[2]);
+    let dets = detectors();
+    let di = match det_by_name(&dets, &rest[3]) {
+        Some(i) => i,
+        None => {
+            eprintln!("unknown detector {}", rest[3]);
+            return 2;
+        }
+    };
+    let sequence = rest.get(4).map(|x| x == "pair-sequence").unwrap_or(false);
+    if solang_parser::parse(&a, 0).is_err() || solang_parser::parse(&b, 0).is_err() {
+        println!("not applicable: A or B does not parse");
+        return 0;
+    }
+    let base = match fresh_process(&b, dets[di].name) {
+        Some(f) => {
+            println!("B alone (fresh process): {}", fmt_lines(&f));
+            f
+        }
+        None => {
+            let f = analyze(&dets[di], &b, 0);
+            println!("B alone (no process could be started; first call of this process): {}", fmt_lines(&f));
+            f
+        }
+    };
+    if base.is_err() {
+        println!("not applicable: the pattern panics on B alone (C04)");
+        return 0;
+    }
+    if sequence {
+        for dj in 0..di {
+            let _ = ofh_run(&dets, &a, &b, dj);
+        }
+    }
+    let mut rc = 0;
+    for (ci, g) in ofh_run(&dets, &a, &b, di).into_iter().enumerate() {
+        if !same(&g, &base) {
+            println!("VIOLATED: B {} gives {}", OFH_CONTEXT_NAMES[ci], fmt_lines(&g));
+            rc = 1;
+        }
+    }
+    if rc == 0 {
+        println!("holds: B gives the same lines after A was analysed with all patterns (orders A,B / A,B,A,B / file numbers 1,2)");
+    }
+    rc
 }
 
 fn c15_replay(rest: &[String]) -> i32 {
     silence();
     if rest.len() < 3 {
-        eprintln!("usage: c15-case repeat|file-number|history|threads|deep-threads|same-buffer|fresh <source> <detector> [seed|text B] [target|nthreads]");
+        eprintln!("usage: c15-case repeat|file-number|history|threads|deep-threads|same-buffer|fresh <source> <detector> [seed|text B] [target|nthreads]\n       c15-case other-file-history <text A> <text B> <detector> [pair-sequence]");
         return 2;
+    }
+    if rest[0] == "other-file-history" {
+        return c15_replay_other_file(rest);
     }
     let src = crate::arg_or_file(&rest[1]);
     let dets = detectors();
@@ -2233,6 +2727,8 @@ pub fn dispatch(cmd: &str, rest: &[String], tier: &str, seed: u64) -> Option<i32
         "c02-case" => Some(c02_replay(rest)),
         "c17-case" => Some(c17_replay(rest)),
         "c15-case" => Some(c15_replay(rest)),
+        // helper of c15 (other-file history): one ordered pair (A, B), all patterns, in a process of its own
+        "c15-ofh-worker" => Some(ofh_worker(rest)),
         // helper of c15: analyse one (content, pattern) as the only thing this process does
         "c15-alone" => {
             silence();
